@@ -23,6 +23,12 @@ SAFE_METHODS = {"lower", "upper", "index", "get", "startswith", "endswith", "enc
                 "replace", "isdigit", "partition", "rpartition", "rsplit", "insert"}
 
 
+_EXC_PARENTS = {"UnicodeDecodeError": ("UnicodeError", "ValueError", "Exception"), "UnicodeEncodeError": ("UnicodeError", "ValueError", "Exception"),
+                "KeyError": ("LookupError", "Exception"), "IndexError": ("LookupError", "Exception"), "ZeroDivisionError": ("ArithmeticError", "Exception"),
+                "OverflowError": ("ArithmeticError", "Exception"), "ValueError": ("Exception",), "TypeError": ("Exception",), "AssertionError": ("Exception",),
+                "AttributeError": ("Exception",), "StopIteration": ("Exception",), "ConnectionError": ("OSError", "Exception")}
+
+
 class _SharedEnv(dict):
     pass
 
@@ -284,6 +290,8 @@ class Evaluator:
                 args = [self.ev(a) for a in e.args]
                 try:
                     return getattr(base, f.attr)(*args)
+                except (UnicodeDecodeError, UnicodeEncodeError) as ex:
+                    raise Raised(type(ex).__name__, e)
                 except Exception as ex:
                     raise Unknown(f"{f.attr}: {ex}")
         # int.from_bytes(b, order, signed=...) / n.to_bytes(length, order, signed=...)
@@ -453,7 +461,7 @@ class Evaluator:
             except Raised as r:
                 for h in s.handlers:
                     names = [unparse(x) for x in (h.type.elts if isinstance(h.type, ast.Tuple) else [h.type])] if h.type is not None else ["*"]
-                    if "*" in names or r.name in names or any(n.split(".")[-1] == r.name.split(".")[-1] for n in names):
+                    if "*" in names or r.name in names or any(n.split(".")[-1] == r.name.split(".")[-1] or n.split(".")[-1] in _EXC_PARENTS.get(r.name.split(".")[-1], ()) for n in names):
                         self.exec_block(h.body)
                         break
                 else:
